@@ -952,7 +952,11 @@ func TestVerifC13Scenario(t *testing.T) {
 			case 1:
 				if h%2 == 0 {
 					node.deliver(rq.p, w.alt[h])
-					if accepted(w.alt[h]) {
+					// an alt block at the very tip L only ever serves as "second" of the pair
+					// (L-1, L); its LastCommit is the genuine commit of L-1, so nothing the node
+					// can check distinguishes it from the canonical block L, and it is never
+					// stored: not a bad answer the node could have acted on
+					if accepted(w.alt[h]) && h < L {
 						used[i] = true
 						nbad++
 						journal = append(journal, fmt.Sprintf("peer %d: alt block for height %d", rq.p.num, h))
